@@ -660,6 +660,9 @@ def twin_listeners(ctx, seed, replay):
     detail = dict(script=script[:24], collection_timeout=ct)
     for p in problems:
         ctx.violation("unexpected-exception-during-run", dict(problem=p, **detail), replay)
+    if wlog not in ([], ["subscribed"], ["subscribed", "unsubscribed"]):
+        ctx.violation("subscription-history-not-alternating:listener-that-withdraws-its-service-inside-the-report",
+                      dict(told=wlog[:6], **detail), replay)
     if logs[1] != logs[2]:
         i = next((i for i, (x, y) in enumerate(itertools.zip_longest(logs[1], logs[2])) if x != y), 0)
         ctx.violation("two-listeners-of-one-service-are-told-different-things",
